@@ -1,20 +1,315 @@
 package main
 
-// Generated-code instances (DESIGN §1.9): placeholder until the instance
-// engine lands.
+// Generated-code instances (DESIGN §1.9). On every run the generator is built
+// from /repo's working tree, the corpus is regenerated into a scratch module
+// outside /repo and /verif, and contracts for the emitted decoders are
+// synthesised: the kind of each decoder (which wire type it must consume) is
+// read off the stream calls it makes, the loop invariants are the schematic
+// ones of the protocol's skipEnd/fieldsEnd/listEnd/mapEnd spec functions.
 
-import "fmt"
+import (
+	"bytes"
+	"fmt"
+	"go/types"
+	"os"
+	"os/exec"
+	"path/filepath"
+	"sort"
+	"strings"
+
+	"golang.org/x/tools/go/ssa"
+)
 
 type InstInfo struct {
 	dir     string
+	root    string
 	pkgs    []string
 	schemas []string
+	skipped []string
+	funcs   int
 }
 
-func prepareInst(repo, verif, tier string) (*InstInfo, error) {
-	return nil, fmt.Errorf("instance engine not built")
+func (ii *InstInfo) cleanup() {
+	if ii != nil && ii.root != "" {
+		os.RemoveAll(ii.root)
+	}
 }
-func (ii *InstInfo) cleanup() {}
-func (ii *InstInfo) addContracts(p *Program, cs *ContractSet, prop string) error { return nil }
+
+func runIn(dir string, name string, args ...string) (string, error) {
+	cmd := exec.Command(name, args...)
+	cmd.Dir = dir
+	cmd.Env = append(os.Environ(), "GOFLAGS=-mod=mod", "GOPROXY=off", "GOSUMDB=off", "GOTOOLCHAIN=local")
+	var buf bytes.Buffer
+	cmd.Stdout = &buf
+	cmd.Stderr = &buf
+	err := cmd.Run()
+	return buf.String(), err
+}
+
+// quickCorpus: schemas regenerated in the quick tier (the thorough tier takes
+// every schema of the repository plus /verif/corpus).
+var quickCorpus = map[string]bool{"structs.thrift": true, "unions.thrift": true, "enums.thrift": true, "exceptions.thrift": true}
+
+func prepareInst(repo, verif, tier string) (*InstInfo, error) {
+	root, err := os.MkdirTemp("", "gvc-inst-")
+	if err != nil {
+		return nil, err
+	}
+	ii := &InstInfo{root: root, dir: filepath.Join(root, "mod")}
+	fail := func(format string, args ...interface{}) (*InstInfo, error) {
+		os.RemoveAll(root)
+		return nil, fmt.Errorf(format, args...)
+	}
+	bin := filepath.Join(root, "thriftrw")
+	if out, err := runIn(repo, "go", "build", "-o", bin, "."); err != nil {
+		return fail("building the generator from the working tree failed: %v\n%s", err, out)
+	}
+	corpus := filepath.Join(root, "corpus")
+	os.MkdirAll(corpus, 0o755)
+	var files []string
+	for _, dir := range []string{filepath.Join(repo, "gen/internal/tests/thrift"), filepath.Join(verif, "corpus")} {
+		ms, _ := filepath.Glob(filepath.Join(dir, "*.thrift"))
+		sort.Strings(ms)
+		for _, f := range ms {
+			data, err := os.ReadFile(f)
+			if err != nil {
+				continue
+			}
+			dst := filepath.Join(corpus, filepath.Base(f))
+			os.WriteFile(dst, data, 0o644)
+			files = append(files, dst)
+		}
+	}
+	os.MkdirAll(filepath.Join(ii.dir, "gen"), 0o755)
+	for _, f := range files {
+		base := filepath.Base(f)
+		fromRepo := true
+		if _, err := os.Stat(filepath.Join(verif, "corpus", base)); err == nil {
+			fromRepo = false
+		}
+		if tier != "thorough" && fromRepo && !quickCorpus[base] {
+			continue
+		}
+		args := []string{"--out", filepath.Join(ii.dir, "gen"), "--pkg-prefix", "example.com/corpus/gen", "--thrift-root", corpus}
+		switch base {
+		case "nozap.thrift":
+			args = append(args, "--no-recurse", "--no-zap")
+		case "enum-text-marshal-strict.thrift":
+			args = append(args, "--no-recurse", "--enum-text-marshal-strict")
+		}
+		args = append(args, f)
+		if out, err := runIn(root, bin, args...); err != nil {
+			ii.skipped = append(ii.skipped, fmt.Sprintf("%s: generator error: %s", base, strings.TrimSpace(out)))
+			continue
+		}
+		ii.schemas = append(ii.schemas, base)
+	}
+	if len(ii.schemas) == 0 {
+		return fail("no schema of the corpus could be generated: %v", ii.skipped)
+	}
+	gomod := "module example.com/corpus\n\ngo 1.22\n\nrequire go.uber.org/thriftrw v0.0.0\n\nreplace go.uber.org/thriftrw => " + repo + "\n"
+	os.WriteFile(filepath.Join(ii.dir, "go.mod"), []byte(gomod), 0o644)
+	if data, err := os.ReadFile(filepath.Join(repo, "go.sum")); err == nil {
+		os.WriteFile(filepath.Join(ii.dir, "go.sum"), data, 0o644)
+	}
+	if out, err := runIn(ii.dir, "go", "build", "./..."); err != nil {
+		return fail("the regenerated corpus does not build: %v\n%s", err, trimOut(out))
+	}
+	ii.pkgs = []string{"./gen/..."}
+	return ii, nil
+}
+
+// ---------------------------------------------------------------------------
+// contract synthesis
+
+const validR = "rpos(sr) >= 0 && rpos(sr) <= 4611686018427387904"
+
+// streamCallName: the stream.Reader method invoked by a call instruction.
+func streamCallName(c *ssa.CallCommon) string {
+	if !c.IsInvoke() {
+		return ""
+	}
+	if n, ok := c.Value.Type().(*types.Named); ok && n.Obj().Name() == "Reader" && n.Obj().Pkg() != nil && strings.HasSuffix(n.Obj().Pkg().Path(), "protocol/stream") {
+		return c.Method.Name()
+	}
+	return ""
+}
+
+func isDecoder(f *ssa.Function) bool {
+	if f == nil || len(f.Blocks) == 0 || !strings.Contains(f.Name(), "Decode") {
+		return false
+	}
+	for _, p := range f.Params {
+		if n, ok := p.Type().(*types.Named); ok && n.Obj().Name() == "Reader" && n.Obj().Pkg() != nil && strings.HasSuffix(n.Obj().Pkg().Path(), "protocol/stream") {
+			return p.Name() == "sr"
+		}
+	}
+	return false
+}
+
+var readCodes = map[string]int{"ReadBool": 2, "ReadInt8": 3, "ReadDouble": 4, "ReadInt16": 6, "ReadInt32": 8, "ReadInt64": 10, "ReadString": 11, "ReadBinary": 11,
+	"ReadFieldBegin": 12, "ReadMapBegin": 13, "ReadSetBegin": 14, "ReadListBegin": 15}
+
+// decoderCode: the wire type code a decoder consumes, read off the first
+// stream call it makes (delegating wrappers take the code of their delegate).
+func decoderCode(f *ssa.Function, seen map[*ssa.Function]bool) int {
+	if seen[f] {
+		return 0
+	}
+	seen[f] = true
+	for _, b := range f.Blocks {
+		for _, in := range b.Instrs {
+			c, ok := in.(ssa.CallInstruction)
+			if !ok {
+				continue
+			}
+			cc := c.Common()
+			if n := streamCallName(cc); n != "" {
+				if code, ok := readCodes[n]; ok {
+					return code
+				}
+				continue
+			}
+			if g, ok := cc.Value.(*ssa.Function); ok && isDecoder(g) {
+				if code := decoderCode(g, seen); code != 0 {
+					return code
+				}
+			}
+		}
+	}
+	return 0
+}
+
+func newContract(fn *ssa.Function, prop string) *Contract {
+	return &Contract{Func: fn.String(), Short: fn.Name(), Pkg: fnPkg(fn).Path(), Props: []string{prop}, File: "synthesised", Line: 0,
+		LoopInv: map[int][]*Clause{}, LoopDec: map[int][]*Clause{}, LoopMod: map[int][]*Clause{}, LoopUse: map[int][]*Clause{}}
+}
+
+func cl(kind, label, text string) *Clause {
+	return &Clause{Kind: kind, Label: label, Text: text, File: "synthesised"}
+}
+
+func (ii *InstInfo) addContracts(p *Program, cs *ContractSet, prop string) error {
+	// spec prelude and unfolding axioms shared by all instance contracts
+	have := false
+	for _, s := range cs.Spec {
+		if s == "thriftbin.smt2" {
+			have = true
+		}
+	}
+	if !have {
+		cs.Spec = append(cs.Spec, "thriftbin.smt2")
+		if err := p.spec.load(filepath.Join("/verif", "spec", "thriftbin.smt2")); err != nil {
+			return err
+		}
+	}
+	cs.Macros["unfoldFields"] = &Macro{Kind: "axiom", Params: []string{"a", "p"}, Body: "fieldsEnd(a, p) == ite(a[p] == 0, p + 1, fieldsEnd(a, skipEnd(a, a[p], p + 3)))"}
+	cs.Macros["unfoldList"] = &Macro{Kind: "axiom", Params: []string{"a", "t", "k", "q"}, Body: "listEnd(a, t, k, q) == ite(k <= 0, q, listEnd(a, t, k - 1, skipEnd(a, t, q)))"}
+	cs.Macros["unfoldMap"] = &Macro{Kind: "axiom", Params: []string{"a", "kt", "vt", "k", "q"}, Body: "mapEnd(a, kt, vt, k, q) == ite(k <= 0, q, mapEnd(a, kt, vt, k - 1, skipEnd(a, vt, skipEnd(a, kt, q))))"}
+	var fns []*ssa.Function
+	for f := range p.allFns {
+		pk := fnPkg(f)
+		if pk == nil || !strings.HasPrefix(pk.Path(), "example.com/corpus/") {
+			continue
+		}
+		if isDecoder(f) {
+			fns = append(fns, f)
+		}
+	}
+	sort.Slice(fns, func(i, j int) bool { return fns[i].String() < fns[j].String() })
+	for _, f := range fns {
+		code := decoderCode(f, map[*ssa.Function]bool{})
+		if code == 0 {
+			continue
+		}
+		ct := newContract(f, prop)
+		recv := ""
+		if f.Signature.Recv() != nil && len(f.Params) > 0 {
+			recv = f.Params[0].Name()
+		}
+		req := validR
+		if recv != "" {
+			req = recv + " != nil && " + validR
+		}
+		ct.Requires = append(ct.Requires, cl("requires", "", req))
+		ct.Lets = append(ct.Lets, cl("let", "", "p0 = rpos(sr)"))
+		ct.Modifies = append(ct.Modifies, cl("modifies", "", "all"))
+		ct.Ensures = append(ct.Ensures,
+			cl("ensures", "sync", fmt.Sprintf("err == nil ==> rpos(sr) == skipEnd(rin(sr), %d, p0)", code)),
+			cl("ensures", "valid", "rpos(sr) >= p0 && rpos(sr) <= 4611686018427387904"))
+		first := firstStreamCall(f)
+		loops := findLoops(f)
+		switch first {
+		case "ReadFieldBegin":
+			if len(loops) != 1 {
+				continue
+			}
+			ct.Uses = append(ct.Uses, cl("use", "", "unfoldFields(rin(sr), rpos(sr))"))
+			ct.LoopInv[1] = []*Clause{
+				cl("invariant", "", "rpos(sr) >= p0 && rpos(sr) <= 4611686018427387904"),
+				cl("invariant", "hdr", "ok ==> rpos(sr) >= p0 + 3 && rin(sr)[rpos(sr) - 3] != 0 && fh.Type == int8(rin(sr)[rpos(sr) - 3]) && fieldsEnd(rin(sr), rpos(sr) - 3) == fieldsEnd(rin(sr), p0)"),
+				cl("invariant", "stop", "!ok ==> rpos(sr) == fieldsEnd(rin(sr), p0)"),
+			}
+			ct.LoopUse[1] = []*Clause{cl("use", "", "unfoldFields(rin(sr), rpos(sr) - 3)"), cl("use", "", "unfoldFields(rin(sr), rpos(sr) - 1)")}
+		case "ReadListBegin", "ReadSetBegin":
+			h := "lh"
+			if first == "ReadSetBegin" {
+				h = "sh"
+			}
+			for n := 1; n <= len(loops); n++ {
+				ct.LoopInv[n] = []*Clause{
+					cl("invariant", "", fmt.Sprintf("rpos(sr) >= p0 && rpos(sr) <= 4611686018427387904 && 0 <= i && i <= %s.Length && %s.Length <= 2147483647", h, h)),
+					cl("invariant", "end", fmt.Sprintf("listEnd(rin(sr), %s.Type, %s.Length - i, rpos(sr)) == listEnd(rin(sr), %s.Type, %s.Length, p0 + 5)", h, h, h, h)),
+					cl("invariant", "hdr", fmt.Sprintf("%s.Type == int8(rin(sr)[p0]) && %s.Length == int64(int32(be32at(rin(sr), p0 + 1)))", h, h)),
+				}
+				ct.LoopUse[n] = []*Clause{cl("use", "", fmt.Sprintf("unfoldList(rin(sr), %s.Type, %s.Length - i, rpos(sr))", h, h))}
+			}
+			if len(loops) == 0 {
+				continue
+			}
+		case "ReadMapBegin":
+			for n := 1; n <= len(loops); n++ {
+				ct.LoopInv[n] = []*Clause{
+					cl("invariant", "", "rpos(sr) >= p0 && rpos(sr) <= 4611686018427387904 && 0 <= i && i <= mh.Length && mh.Length <= 2147483647"),
+					cl("invariant", "end", "mapEnd(rin(sr), mh.KeyType, mh.ValueType, mh.Length - i, rpos(sr)) == mapEnd(rin(sr), mh.KeyType, mh.ValueType, mh.Length, p0 + 6)"),
+					cl("invariant", "hdr", "mh.KeyType == int8(rin(sr)[p0]) && mh.ValueType == int8(rin(sr)[p0 + 1]) && mh.Length == int64(int32(be32at(rin(sr), p0 + 2)))"),
+				}
+				ct.LoopUse[n] = []*Clause{cl("use", "", "unfoldMap(rin(sr), mh.KeyType, mh.ValueType, mh.Length - i, rpos(sr))")}
+			}
+			if len(loops) == 0 {
+				continue
+			}
+		default:
+			if len(loops) != 0 {
+				continue
+			}
+		}
+		if _, dup := cs.ByFunc[ct.Func]; dup {
+			continue
+		}
+		cs.ByFunc[ct.Func] = ct
+		cs.Order = append(cs.Order, ct)
+		ii.funcs++
+	}
+	if ii.funcs == 0 {
+		return fmt.Errorf("no decoder found in the regenerated corpus")
+	}
+	return nil
+}
+
+func firstStreamCall(f *ssa.Function) string {
+	for _, b := range f.Blocks {
+		for _, in := range b.Instrs {
+			if c, ok := in.(ssa.CallInstruction); ok {
+				if n := streamCallName(c.Common()); n != "" {
+					if _, ok := readCodes[n]; ok {
+						return n
+					}
+				}
+			}
+		}
+	}
+	return ""
+}
 
 func selftest(args []string) int { return 2 }
